@@ -55,6 +55,8 @@ func ProfileByName(name string) *Profile {
 		p.MemoPct = 50
 		p.DebugPct = 15
 		p.StatsPct = 30
+		p.MemoPred = 10
+		p.ScanPct = 35
 		p.W[KOpt] = 12
 		p.W[KRef] = 22
 		p.W[KAlt] = 18
